@@ -26,6 +26,11 @@ type c11Step struct {
 	Gens    [][]c11Point `json:"generations"`  // one flush generation each, ingested before the run
 	Compact string       `json:"compaction"`   // "", "hourly", "hourly+daily" (+"@policydb" = only the policy's database): real compaction cycles after the ingest
 	Exec    string       `json:"real_run_via"` // "http" (POST .../execute) | "scheduler" (ExecutePolicy, the scheduler's entry point)
+	// Request bodies of the HTTP execute calls: every flag combination handleExecute
+	// accepts (ExecuteRetentionRequest has exactly dry_run and confirm; ExecutePolicy
+	// takes no flags). Empty = {"dry_run":true} / {"confirm":true} (older replays).
+	DryBody  string `json:"dry_run_request_body,omitempty"`
+	RealBody string `json:"real_run_request_body,omitempty"`
 }
 
 // c11Case is one layout + policy (also the replay format).
@@ -277,6 +282,8 @@ func genC11Case(r *rand.Rand, idx, round int, rd c11Round) c11Case {
 			st.Compact = "hourly+daily"
 		}
 		st.Exec = pick(r, []string{"http", "scheduler"})
+		st.DryBody = pick(r, []string{`{"dry_run":true}`, `{"dry_run":true,"confirm":false}`, `{"dry_run":true,"confirm":true}`, `{"confirm":true,"dry_run":true}`})
+		st.RealBody = pick(r, []string{`{"confirm":true}`, `{"dry_run":false,"confirm":true}`})
 	}
 	return cs
 }
